@@ -2,7 +2,13 @@
 // C20 — bounded stand-in (NOT a proof), second line behind the Verus unit `builder_bind`: catches rewrites of the bind check
 // into forms Verus cannot take.  The verbatim builder code is compiled against std + tiny executable shims and EVERY sequence
 // of bind calls up to the bound is run in every order.
-#![allow(dead_code, unused_imports, unused_variables, unreachable_patterns)]
+#![allow(dead_code, unused_imports, unused_variables, unused_macros, unreachable_patterns)]
+// tracing macros (shim: logging has no bearing on the property)
+macro_rules! trace { ($($t:tt)*) => {}; }
+macro_rules! debug { ($($t:tt)*) => {}; }
+macro_rules! info { ($($t:tt)*) => {}; }
+macro_rules! warn { ($($t:tt)*) => {}; }
+macro_rules! error { ($($t:tt)*) => {}; }
 use std::convert::Infallible;
 use std::net::{IpAddr, Ipv4Addr, Ipv6Addr, SocketAddr, SocketAddrV4, SocketAddrV6};
 use std::sync::Arc;
@@ -62,7 +68,7 @@ impl Builder {
 
 // @extra-items-here (helpers a change newly calls are spliced in above this line)
 #[derive(Clone, Copy, Debug, PartialEq, Eq)]
-struct Bind { v4: bool, prefix_len: u8, explicit: Option<bool> }
+struct Bind { v4: bool, prefix_len: u8, explicit: Option<bool>, required: bool }
 impl Bind {
     fn is_default(&self) -> bool { self.explicit.unwrap_or(self.prefix_len == 0) }
     fn prefix_ok(&self) -> bool { self.prefix_len <= if self.v4 { 32 } else { 128 } }
@@ -71,7 +77,7 @@ fn run(seq: &[Bind]) -> bool {
     let mut b = Builder { transports: Vec::new() };
     for (i, x) in seq.iter().enumerate() {
         let addr: SocketAddr = if x.v4 { SocketAddr::V4(SocketAddrV4::new(Ipv4Addr::new(10, 0, i as u8, 1), 0)) } else { SocketAddr::V6(SocketAddrV6::new(Ipv6Addr::new(0xfd00, 0, 0, i as u16, 0, 0, 0, 1), 0, 0, 0)) };
-        let opts = BindOpts { prefix_len: x.prefix_len, is_required: true, is_default_route: x.explicit };
+        let opts = BindOpts { prefix_len: x.prefix_len, is_required: x.required, is_default_route: x.explicit };
         match b.bind_addr_with_opts(addr, opts) { Ok(nb) => b = nb, Err(_) => return false }
     }
     true
@@ -89,7 +95,8 @@ fn main() {
     let mut alphabet = Vec::new();
     for v4 in [true, false] {
         for (p, e) in [(0u8, None), (24, None), (24, Some(true)), (0, Some(false)), (if v4 { 33 } else { 129 }, None), (if v4 { 32 } else { 128 }, Some(true))] {
-            alphabet.push(Bind { v4, prefix_len: p, explicit: e });
+            alphabet.push(Bind { v4, prefix_len: p, explicit: e, required: true });
+            if p == 0 || e == Some(true) { alphabet.push(Bind { v4, prefix_len: p, explicit: e, required: false }); }
         }
     }
     let mut evaluations = 0u64; let mut nontrivial = 0u64; let mut nfail: [u64; 2] = [0, 0];
